@@ -10,7 +10,7 @@ from props.filter_common import parse_impl
 class C13(Prop):
     id = "C13"
     prop_file = "Props/C13"
-    level = "other"
+    level = "proof"
     binary_cases = True
     quick_n = 2500
     thorough_n = 60000
